@@ -371,6 +371,10 @@ class Constraint(AbstractConstraint):
                 else:
                     if not isinstance(inner_value.typ.typ, self.value):
                         yield value
+            else:
+                # Other kinds of values (e.g., type variables, type aliases,
+                # unbound methods) are not narrowed, but they must not be dropped.
+                yield value
 
         elif self.constraint_type == ConstraintType.is_value:
             if self.positive:
@@ -392,6 +396,11 @@ class Constraint(AbstractConstraint):
                         and safe_issubclass(self.value, inner_value.typ.typ)
                     ):
                         yield known_val
+                else:
+                    # We don't know how to check other kinds of values (e.g., type
+                    # variables), but if the identity check succeeds the variable
+                    # is the tested object.
+                    yield known_val
             else:
                 if not (
                     isinstance(inner_value, KnownValue)
